@@ -127,7 +127,7 @@ impl FixedWindowState {
     //@body FixedWindowState::new
 
     pub fn refresh(&mut self, now: Instant)
-        ensures *final(self) == (FixedWindowState { available_permits: old(self).limit_for_period, period_start: now, ..*old(self) }),   // #refresh_opens_a_new_full_window [C02]
+        ensures *final(self) == (FixedWindowState { available_permits: old(self).limit_for_period, period_start: now, ..*old(self) }),   // #refresh_opens_a_new_full_window [C02,C15]
     //@body FixedWindowState::refresh
 
     pub fn try_acquire<Req, Res, E>(&mut self, clk: &mut Clock, Tracked(tr): Tracked<&mut Trace<Req, Res, E>>) -> (r: AcquireResult)
@@ -137,7 +137,7 @@ impl FixedWindowState {
             final(self).limit_for_period == old(self).limit_for_period && final(self).refresh_period == old(self).refresh_period && final(self).timeout_duration == old(self).timeout_duration,   // #configuration_unchanged [C02]
             // a new window starts only when the current one is at least refresh_period old, and starts full
             final(self).period_start != old(self).period_start ==> final(clk).now@ - old(self).period_start.t >= old(self).refresh_period.nanos
-                && final(self).period_start.t == final(clk).now@,   // #window_never_shorter_than_refresh_period [C02]
+                && final(self).period_start.t == final(clk).now@,   // #window_never_shorter_than_refresh_period [C02,C15]
             final(clk).now@ - old(self).period_start.t >= old(self).refresh_period.nanos ==> final(self).period_start.t == final(clk).now@
                 && r == zero() && final(self).available_permits == old(self).limit_for_period - 1,   // #after_a_full_period_a_fresh_window_admits_at_once [C15]
             final(self).period_start == old(self).period_start ==> final(self).available_permits + (if r == zero() { 1int } else { 0int }) == old(self).available_permits,   // #permit_consumed_exactly_when_admitted [C02,C15]
